@@ -256,8 +256,11 @@ func selfTest(r *Result, prop, repo string) {
 					break
 				}
 			}
-			if hit == "" && len(broken) > 0 && m.ExpectRule == "" {
-				hit = "broken-check: " + broken[0]
+			// a vacuity floor that fires is not a report of the mutation: the mutant counts as reported only
+			// when an obligation is violated or undecided
+			brokenOnly := ""
+			if hit == "" && len(broken) > 0 {
+				brokenOnly = " (only a broken-check: " + broken[0] + ")"
 			}
 			if hit != "" {
 				killed++
@@ -268,7 +271,7 @@ func selfTest(r *Result, prop, repo string) {
 				if len(obls) > 0 {
 					other = " (other reports: " + obls[0].Rule + " " + obls[0].Construct + ")"
 				}
-				details = append(details, m.ID+": SURVIVED"+other+" — "+m.Note)
+				details = append(details, m.ID+": SURVIVED"+other+brokenOnly+" — "+m.Note)
 			}
 		}()
 	}
